@@ -263,7 +263,7 @@ class SymStr:
     def index(self, needle, start=0):
         r = self.find(needle, start)
         if r < 0:
-            raise ValueError("substring not found")
+            raise core.emulated(ValueError("substring not found"))
         return r
 
     def count(self, needle):
@@ -463,7 +463,7 @@ def to_float(x):
             v = its[0].v
             return core._real(v) if core.is_sym(v) else float(v)
         if any(isinstance(i, Num) for i in its):
-            raise ValueError(f"could not convert string to float: {s!r}")
+            raise core.emulated(ValueError(f"could not convert string to float: {s!r}"))
         return float(concretise(s))
     if isinstance(x, SymReal):
         return x
@@ -480,10 +480,10 @@ def to_int(x):
         its = s.items
         if len(its) == 1 and isinstance(its[0], Num):
             if its[0].kind != "int":
-                raise ValueError(f"invalid literal for int() with base 10: {s!r}")
+                raise core.emulated(ValueError(f"invalid literal for int() with base 10: {s!r}"))
             return its[0].v
         if any(isinstance(i, Num) for i in its):
-            raise ValueError(f"invalid literal for int() with base 10: {s!r}")
+            raise core.emulated(ValueError(f"invalid literal for int() with base 10: {s!r}"))
         # all digits?  value = sum d_i 10^k, one fork decides digit-ness
         if all(isinstance(i, (str, SymChar)) for i in its):
             alld = And(*[_item_in(i, "0123456789") for i in its])
